@@ -124,8 +124,16 @@ func (c17) Gen(r *sim.RNG, tier string, idx int) *Scenario {
 						c = append(c, e)
 					}
 				}
+				var holders []string // schema positions of the root that hold a $ref
+				for _, h := range model.Holders(w.RootNode()) {
+					if h.Node.Kind == model.KSchema {
+						holders = append(holders, h.Node.Ptr)
+					}
+				}
 				if len(c) == 0 || r.Intn(4) == 0 {
 					op = Op{Entry: "Marshal"}
+				} else if len(holders) > 0 && r.Intn(3) == 0 {
+					op = Op{Entry: "ResolveSharedRef", Ptr: holders[r.Intn(len(holders))]}
 				} else {
 					op = c[r.Intn(len(c))]
 					op.Root = []string{"shared-typed", "shared-typed", "shared-generic"}[r.Intn(3)]
@@ -336,6 +344,57 @@ func (c17) Run(sc *Scenario) *Verdict {
 				sim.RunSeq(ctx, f)
 			}
 			return taskResult{Digest: fmt.Sprint(err) + "|" + string(b)}
+		case "ResolveSharedRef":
+			// the caller hands a $ref taken from the shared document itself to the resolver
+			ctx := sim.NewOpCtx(key, StepBudgetDefault)
+			log := &sim.ReqLog{}
+			ctx.Loader = store.Loader(log)
+			if sched {
+				sim.SetTaskCtx(ctx)
+			}
+			var out string
+			f := func() {
+				p, err := jsonpointer.New(op.Ptr)
+				if err != nil {
+					out = "ptr-error"
+					return
+				}
+				val, _, err := p.Get(sharedDoc)
+				if err != nil {
+					out = "lookup-error"
+					return
+				}
+				var ref spec.Ref
+				switch sv := val.(type) {
+				case spec.Schema:
+					ref = sv.Ref
+				case *spec.Schema:
+					if sv == nil {
+						out = "nil"
+						return
+					}
+					ref = sv.Ref
+				default:
+					out = fmt.Sprintf("not a schema: %T", val)
+					return
+				}
+				res, rerr := spec.ResolveRefWithBase(sharedDoc, &ref, &spec.ExpandOptions{RelativeBase: RootPath(w), PathLoader: ctx.Loader})
+				b, _ := json.Marshal(res)
+				out = fmt.Sprint(rerr) + "|" + string(b)
+			}
+			if sched {
+				func() {
+					defer func() {
+						if r := recover(); r != nil {
+							out = fmt.Sprint("PANIC ", r)
+						}
+					}()
+					f()
+				}()
+			} else {
+				sim.RunSeq(ctx, f)
+			}
+			return taskResult{Digest: out, Steps: ctx.Steps, Reqs: len(log.Reqs)}
 		case "Pointer":
 			ctx := sim.NewOpCtx(key, StepBudgetDefault)
 			if sched {
